@@ -11,6 +11,7 @@ import sys
 from pathlib import Path
 
 SEEDED = Path("/verif/seeded")
+SEQ_PROPS = {"C01", "C02", "C03", "C07", "C09", "C10", "C13", "C15", "C18"}
 HEAD = subprocess.check_output(["git", "-C", "/repo", "rev-parse", "HEAD"], text=True).strip()
 
 
@@ -40,6 +41,22 @@ def run_prop(prop, ids):
                 oracle_violations_new=sum(1 for l in det["violation_lines"] if "no-failing-input-found" not in l),
                 proof_or_translator_broken=[b for b in broken if b.startswith("coq:") or b.startswith("translator")][:4],
             )
+        # harvest: the failing case of a caught change becomes a corpus case of the property (run first on
+        # every run), so that this class of change is detected whatever the seed
+        if prop in SEQ_PROPS and p.returncode == 1:
+            rdir = Path(f"/verif/.work/alt-{tag}/evidence/replays")
+            n = 0
+            for rf in sorted(rdir.glob(f"{prop}-*.json")):
+                try:
+                    payload = json.loads(rf.read_text())
+                except Exception:  # noqa: BLE001
+                    continue
+                case = payload.get("case")
+                if isinstance(case, dict) and "ops" in case and "device" in case and n < 2:
+                    out_f = Path(f"/verif/corpus/{prop}/seeded-{sid}-{n}.json")
+                    if not out_f.exists():
+                        out_f.write_text(json.dumps(case))
+                    n += 1
         caught = p.returncode == 1 and bool(det["violation_lines"])
         det["caught"] = caught
         by = []
